@@ -367,6 +367,22 @@ def union_write_fold_rule(repo: Repo, rep: Report, rid: str) -> None:
               "covers are dumped as zeros", fi.loc())
 
 
+def proxy_fold_rule(repo: Repo, rep: Report, rid: str) -> None:
+    rep.rule(rid, "union proxies folded on a model union (an anonymous structure, a structure member with a nested structure, a scalar): after "
+                  "_proxify every structure-typed member at any depth - the anonymous one included - is a proxy naming its top-level member; an "
+                  "assignment through a proxy sets the attribute on the proxy's own target, rebuilds through that member once and stores nothing else on the union")
+    from ..folds import fold_union_proxies
+
+    fi = repo.func("types/structure.py", "Union._proxify")
+    fold = fold_union_proxies(repo)
+    if fold is None:
+        rep.ok(rid, f"{fi.key}:fold", "not foldable with the evaluator's whitelist: the structural proxy rules decide", fi.loc(), nontrivial=False)
+        return
+    bad = fold["bad"]
+    rep.check(not bad, rid, f"{fi.key}:fold", f"{fold['cases']} model cases agree with the reference",
+              (f"{bad[0][0]}: {bad[0][1]} is {bad[0][2]}, expected {bad[0][3]}: members reached through it and the union's buffer go out of step") if bad else "", fi.loc())
+
+
 def run(repo: Repo, rep: Report, tier: str) -> None:
     member_seek_rule(repo, rep, "C11.R1")
     rebuild_rule(repo, rep, "C11.R2")
@@ -400,3 +416,4 @@ def run(repo: Repo, rep: Report, tier: str) -> None:
 
     default_substitution_rule(repo, rep, "C11.R17")
     call_shortcut_rule(repo, rep, "C11.R18")
+    proxy_fold_rule(repo, rep, "C11.R19")
